@@ -180,7 +180,8 @@ def map_case(ctx, case, circuit=None, b=None):
             ctx.violation('release-within-level', m, case)
         if int(sim.c_len) < mons[0].max_end:
             ctx.violation('map-total-size', f'c_len is {sim.c_len} but the allocator handed out a region ending at {mons[0].max_end}', case)
-        elif mons[0].whitebox and int(sim.c_len) != mons[0].high:
+        elif mons[0].whitebox and int(sim.c_len) < mons[0].high:
+            # (a total size larger than the extent - padding, alignment - is within the property: signals stay inside the reported size)
             ctx.violation('map-total-size', f'c_len is {sim.c_len} but the allocator extent reached {mons[0].high}', case)
     bad, st = I.inv_memmap(sim, circuit, case['strip_forks'], case['c_reuse'])
     for m in bad[:2]:
